@@ -16,28 +16,45 @@ TRUST = ("Coq 8.16.1 kernel (vm_compute used for closed examples and finite swee
 PARSE_TECH = "Coq theorems about the reference semantics + extracted-model differential against 4 execution modes"
 
 CHECKS = {
-    "C03": ("proof", "Theorems about the extracted reference semantics `run` (Spec.v): determinism, ordered choice commits / "
-            "backtracks without trace, greedy repetition, bounded repetitions are their unrolled sequences, predicates "
-            "consume nothing, one pair per non-silent rule application. The implementation is tied to `run` on every "
-            "run: all four execution modes vs the extracted model on G1 (template-complete small scope, all inputs up "
-            "to the bound) and G2 (random well-formed grammars); mode I also on failure position and expected sets.",
+    "C03": ("proof", "Theorems about the reference semantics `run` (Spec.v): determinism, ordered choice commits / "
+            "backtracks without trace, greedy repetition, bounded repetitions are their unrolled sequences, "
+            "predicates consume nothing, one pair per non-silent rule application. The interpreter itself is "
+            "modelled clause by clause (Interp.v, tied exactly to mode I: trees, failure positions and expected "
+            "sets) and PROVED to refine the reference semantics (InterpProof.iparse_refines: same outcome "
+            "whenever it finishes, never an inconsistent state, every checkpoint / saved depth / rule frame "
+            "released; hypothesis: a silent rule is not $ or !, which grammar text cannot express, enforced by "
+            "the exporter). Tie on every run: all four execution modes vs the extracted models on G1 (complete "
+            "depth-1 kernel of atom x context, all inputs up to the bound) and G2 (random well-formed grammars).",
             "4.C03", PARSE_TECH),
     "C04": ("proof", "Theorems: trivia placement in sequences and between star iterations (given back when no iteration "
-            "follows), bounded repetitions as unrolled sequences, no trivia in atomic contexts, rule atomicity table, "
-            "atomic hiding of pairs. Correspondence: four modes vs the extracted model on grammars with every trivia "
-            "configuration and modifier nesting.", "4.C04", PARSE_TECH),
+            "follows), bounded repetitions as unrolled sequences, no trivia in atomic contexts, rule atomicity "
+            "table, atomic hiding of pairs. The interpreter itself is modelled clause by clause (Interp.v, tied "
+            "exactly to mode I: trees, failure positions and expected sets) and PROVED to refine the reference "
+            "semantics (InterpProof.iparse_refines: same outcome whenever it finishes, never an inconsistent "
+            "state, every checkpoint / saved depth / rule frame released; hypothesis: a silent rule is not $ or "
+            "!, which grammar text cannot express, enforced by the exporter). Correspondence: four modes vs the "
+            "extracted models on grammars with every trivia configuration (incl. implicit rules calling other "
+            "rules) and modifier nesting.", "4.C04", PARSE_TECH),
     "C05": ("proof", "Theorems: each stack operation's effect; failure is `Fail t` (no state), so alternatives, optionals, "
             "iterations and predicates continue from the caller's state; stack operations are total (never Err). "
-            "Correspondence: four modes vs the extracted model on stack-heavy grammars, exceptions counted as "
-            "violations.", "4.C05", PARSE_TECH),
+            "The interpreter itself is modelled clause by clause (Interp.v, tied exactly to mode I: trees, "
+            "failure positions and expected sets) and PROVED to refine the reference semantics "
+            "(InterpProof.iparse_refines: same outcome whenever it finishes, never an inconsistent state, every "
+            "checkpoint / saved depth / rule frame released; hypothesis: a silent rule is not $ or !, which "
+            "grammar text cannot express, enforced by the exporter). Correspondence: four modes vs the extracted "
+            "models on stack-heavy grammars (nested backtracking, implicit rules with stack side effects), "
+            "exceptions counted as violations.", "4.C05", PARSE_TECH),
     "C06": ("proof", "Theorems (SpecWf.v, PairsApi.v): every tree returned by the reference semantics is an ordered, nested, "
             "non-overlapping chain inside [start_pos, len], names are non-silent rules, single root for a non-silent "
             "start rule; tokens() balanced and sorted; flatten() is the pre-order. Check: the same invariants evaluated "
             "directly on every tree of every mode, plus dump()/dumps() agreement (tested, not proved).", "4.C06",
             PARSE_TECH),
     "C07": ("proof", "Theorems: no Err when all references are defined (the model has no other abnormal outcome), "
-            "determinism, fuel-independence. Termination for well-formed grammars is stated (C07_full) but not proved: "
-            "partial. Check: exception type escaping each mode, repeated call equality, every parse under a timer.",
+            "determinism, fuel-independence, TERMINATION for every grammar accepted by the well-formedness "
+            "certificate (SpecTerm.run_terminates; certificate computed by the extracted wf_auto), hence totality "
+            "(C07_total); the interpreter model never crashes (refinement). Outside the model: CPython's "
+            "recursion limit and memory (e.g. \"x\"{999999999}). Check: exception type escaping each mode, repeated "
+            "call equality, every parse under a timer.",
             "4.C07", PARSE_TECH),
     "C16": ("proof", "Theorem (SpecShift.v): for SOI-free grammars run commutes with shifting positions, hence "
             "parse(text, k) = shift k (parse(text[k:], 0)) and the prefix is irrelevant; counter-example with SOI. "
@@ -54,9 +71,12 @@ CHECKS = {
             "IG) on grammars built around each rewrite trigger under the default pipeline, each single pass and seeded "
             "subsets/permutations/repetitions, all modes tied to the reference semantics.", "4.C02",
             "Coq laws for unroll + optimized-vs-unoptimized differential over pass configurations"),
-    "C08": ("proof", "Theorems: untagged group is identity, failed alternatives and predicates leave no trace. The six "
-            "rewrites at arbitrary sites of the bundled grammars (plus synthetic grammars with tags/stack/atomicity) are "
-            "applied to the text and original vs rewritten compared in four modes on every run.", "4.C08",
+    "C08": ("proof", "Theorems (SpecEquiv.v, 22 statements): untagged group is identity, sequence / choice re-association, "
+            "extraction of a sub-expression into a fresh silent rule, duplicate alternative, never-matching "
+            "alternatives (positive and negated), congruence for every construct (so the rewrites compose at any "
+            "nesting), tracker irrelevance. Check: the rewrites and compositions of two at one site applied to "
+            "the text of the bundled grammars (plus synthetic grammars with tags/stack/atomicity), original vs "
+            "rewritten in four modes on every run.", "4.C08",
             "Coq laws + rewrite-and-compare on bundled grammars"),
     "C09": ("proof", "Theorem C09_history_refines: for EVERY history of push/pop/clear/snapshot/restore/drop the "
             "delta-encoded stack (model of stack.py) has the contents and saved copies of the full-copy reference "
@@ -65,14 +85,16 @@ CHECKS = {
             "SnapshottingInt histories, implementation vs extracted model vs an independent reference.", "4.C09",
             "refinement proof over all histories + exhaustive small-scope tie"),
     "C10": ("proof", "PARTIAL. Accept set and built structure are decided differentially against the reference reader "
-            "(extracted reference semantics running tests/grammars/meta.pest, regenerated into Grammars.v, + denote) on "
-            "generated grammar texts with every syntactic form and layout, bundled grammars, mutations. Proved: the "
-            "reader never reaches an undefined rule, its verdict is fuel-independent, its trees are well-formed.",
+            "(extracted reference semantics running tests/grammars/meta.pest, regenerated into Grammars.v, + "
+            "denote) on generated grammar texts with every syntactic form and layout, bundled grammars, "
+            "mutations. Proved: the reader never reaches an undefined rule, its verdict is fuel-independent, its "
+            "trees are well-formed, it terminates on every text (wf_auto certificate of the meta-grammar checked "
+            "by vm_compute). python-pest's scanner/parser are not modelled.",
             "4.C10", "reference reader = proved semantics on pest's own meta-grammar; differential"),
-    "C11": ("proof", "PARTIAL. Proved for the reference reader: never abnormal, rejection position inside the text. "
-            "python-pest's front end: exception type, str() and reported line/column on token soups, truncations and "
-            "mutations of valid grammars and edge texts, with and without optimizer, on every run. Termination bound "
-            "(C11_full) not proved; CPython's recursion limit outside the model (converted to a syntax error by a fix).",
+    "C11": ("proof", "PARTIAL. Proved for the reference reader: never abnormal, rejection position inside the text, "
+            "terminates on every text. python-pest's front end: exception type, str() and reported line/column on "
+            "token soups, truncations and mutations of valid grammars and edge texts, with and without optimizer, "
+            "on every run. CPython's recursion limit is outside the model (converted to a syntax error by a fix).",
             "4.C11", "totality of the reference reader + fault-input differential"),
     "C12": ("proof", "Theorems over unbounded N: ranges exact and case-sensitive; the optimizer's merged class accepts "
             "exactly the union of its parts; ASCII tables in the source (regenerated into Tables.v) equal pest's; ASCII "
@@ -94,9 +116,10 @@ CHECKS = {
             "scheduling inside one parse() call is outside the model.", "4.C15",
             "world model theorem + shared-state monitor + history/thread differential"),
     "C17": ("proof", "PARTIAL. Proved on artefacts regenerated from /repo: JSON grammars reference only defined rules, "
-            "trees well-formed, samples accepted / prefix rejected; the calculator's Pratt table gives canonical unique "
-            "trees (C18 instance). End-to-end: generated RFC 8259 documents and proper prefixes in four modes vs "
-            "json.loads; three calculators vs an evaluator written from the documented table.", "4.C17",
+            "terminate on every input (wf_auto), trees well-formed, samples accepted / prefix rejected; the "
+            "calculator's Pratt table gives canonical unique trees (C18 instance). End-to-end: generated RFC 8259 "
+            "documents and proper prefixes in four modes vs json.loads; three calculators vs an evaluator written "
+            "from the documented table.", "4.C17",
             "instance theorems + differential against json.loads and an independent evaluator"),
     "C18": ("proof", "Theorems (PrattProof.v): the tree built is canonical for the declared table, its yield is the "
             "consumed stream, every canonical tree is rebuilt from its yield (exactness), canonical trees are unique, "
